@@ -63,7 +63,9 @@ def explore_c20(rng, tier, res, deep=False):
         for i in range(n):
             res.evaluations += 1
             doc = doc_with_all_kinds(rng, rng.choice([1, 2, 3]))
-            kind = rng.choice(["valid"] * 5 + ["syntax", "type", "index", "name", "badjson", "badbytes", "deep", "mutant", "rootish", "rootish", "spaced", "bignum"])
+            kind = rng.choice(["valid"] * 5 + ["syntax", "type", "index", "name", "badjson", "badbytes", "deep", "mutant", "rootish", "rootish", "spaced", "bignum", "ctl", "ctl"])
+            if 16 <= i < 28:
+                kind = "ctl"  # always some of these, whatever the seed
             q = walk_query(rng, doc, g, filters=True) if rng.random() < 0.5 else g.query()
             FALSY = [{}, [], "", 0, False, None, 0.0, -0.0]
             if i < 2 * len(FALSY):
@@ -93,6 +95,14 @@ def explore_c20(rng, tier, res, deep=False):
                 q = rng.choice(["$[?nope(@)]", "$[?foo(@.a)==1]"])
             elif kind == "mutant":
                 q = gen.mutate(rng, q)
+            elif kind == "ctl":
+                # invalid queries in which the character or token the error is about is a control character or a line
+                # separator (the diagnostic stays ONE line), at the start, inside and at the end of the text
+                ctl = ["\n", "\r", "\t", "\x0b", "\x0c", "\x00", "\x1b", "\x7f", "\x85", "\u2028", "\u2029", "\r\n"]
+                c = ctl[(i - 16) % len(ctl)] if 16 <= i < 28 else rng.choice(ctl)
+                pick = (lambda xs: xs[(i - 16) % len(xs)]) if 16 <= i < 28 else rng.choice
+                q = pick([c + "$.a", "$.." + c, "$.a[" + c + "x]", "$.a" + c + "b", "$[?@.a == " + c + "x]", "$['a" + c + "']", "$.a." + c, "$[?" + c + "x]",
+                                "$[1" + c + "2]", "x" + c + "$", "$[?@.a ~" + c + "1]", "$.a[?@" + c + "@]"])
             elif kind == "badjson":
                 doc_bytes = rng.choice([b"}}invalid", b"", b"[1,", b"{'a':1}", b"[1] x", b"nul"])
             elif kind == "bignum":
@@ -111,6 +121,8 @@ def explore_c20(rng, tier, res, deep=False):
             debug = rng.random() < 0.2
             pretty = rng.random() < 0.4
             use_rfile = rng.random() < (0.7 if kind == "spaced" else 0.3)
+            if 16 <= i < 28:
+                debug, use_rfile = False, i % 4 == 3  # the fixed control-character family: inline mostly, no --debug
             use_stdin = rng.random() < 0.3 and kind != "badbytes"
             use_ofile = rng.random() < 0.4
             argv = []
@@ -195,7 +207,7 @@ def explore_c20(rng, tier, res, deep=False):
                 if not debug:
                     if tb:
                         bad.append("traceback without --debug")
-                    elif not (err.endswith("\n") and err.count("\n") == 1 and len(err) > 1):
+                    elif not (err.endswith("\n") and len(err[:-1].splitlines()) == 1):  # no LF, CR, VT, FF, NEL, LS, PS ... inside
                         bad.append("diagnostic is not exactly one line")
                 if bad:
                     res.violations.append({"property": "C20", "query": q, "document": doc_bytes[:60].decode("latin1"), "argv": argv,
